@@ -5,6 +5,8 @@ import PngVerif.Driver.C15
 import PngVerif.Driver.C20
 import PngVerif.Driver.Framing
 import PngVerif.Driver.Components
+import PngVerif.Driver.C17
+import PngVerif.Driver.C12
 import PngVerif.Driver.Reader
 /-!
 `pngmodel`: line-protocol driver.  One case per input line, one canonical answer per output line,
@@ -22,6 +24,8 @@ def answer (line : String) : String :=
   | "c20" :: args => c20 args
   | "frm" :: args => frm args
   | "cmp" :: args => cmp args
+  | "c17" :: args => c17 args
+  | "c12" :: args => c12 args
   | "rdr" :: args => rdr args
   | _ => "bad-op"
 
